@@ -9,21 +9,22 @@ TB_REALS = ("Coq 8.16.1 kernel; stdlib axioms of the classical reals as printed 
 
 CHECKS_C15 = dict(
     level="proof",
-    text="18 theorems over the reals about the operator definitions in coq/theories/Prox.v (strong minimality => argmin and uniqueness, "
+    text="The operators are TRANSLATED from box.hpp / box-constr-problem.hpp / l1-norm.hpp into Gallina on every run (ProxGen.v: 31 definitions), proved equal to the model (ProxGenEq.v, 57 equalities) and run at binary64 against the implementation; the theorems are restated for the generated terms. "
+         "36 theorems over the reals about the operator definitions in coq/theories/Prox.v (strong minimality => argmin and uniqueness, "
          "subgradient form, step = out - in, inactive set <=> locally identity shift, multiplier clamp), for all inputs; the same Gallina "
          "definitions are executed at binary64 inside coqc and compared with the shipped C++ operators on generated cases (hand model + "
          "correspondence), and the optimality conditions are evaluated directly on the implementation outputs (exact rational arithmetic on ties).",
     design="4/C15",
-    note=TB_REALS + "hand-written model tied by correspondence (tolerance 2^-36, discrete outputs equal); infinite box sides modelled as None; "
+    note=TB_REALS + "translator translate/gen_prox.py (Eigen coefficient-wise expression grammar; out-of-grammar units fall back to a committed reference text and are reported); hand-written model tied by correspondence (tolerance 2^-36, discrete outputs equal); infinite box sides modelled as None; "
          "nuclear norm: no theorem (Eigen BDCSVD is an oracle), only the optimality condition is checked on outputs; the complex-l1 operator did not compile before fix 5a3d83895.",
-    technique="Coq proof over R of the executable model + differential correspondence at binary64 + optimality-condition oracle")
+    technique="Translator-generated operators + Coq proof over R of the executable model + differential correspondence at binary64 + optimality-condition oracle")
 CHECKS_C06 = dict(
     level="proof",
     text="The status chain is TRANSLATED from check_all_stop_conditions (panoc-helpers.tpp and the PANOC-OCP copy) into Gallina on every run; "
          "theorems about the generated functions: Converged iff eps<=tol, tolerance wins over every limit, MaxIter only with k=max_iter, NotFinite only non-finite, "
          "NoProgress only above the limit, Interrupted only after a request, OCP copy identical, and at binary64 (FloatAxioms) a NaN/+inf residual is never Converged; "
          "loop-skeleton theorem (all observation sequences): iterations<=max_iter; no-progress counter spec incl. max_no_progress=0; reported eps = documented formula for all ten criteria over R. "
-         "Kernels are tied by direct calls (exhaustive truth table, random criteria data) evaluated by the same Gallina code at binary64; whole-solver runs check statuses, counts and eps recomputed from the final iterate.",
+         "calc_error_stop_crit (all ten criteria, and PANOC-OCP's six) is TRANSLATED as well (KernelsGen.v, proved equal to the hand criteria and to the documented formulas). Kernels are tied by direct calls (exhaustive truth table, random criteria data) evaluated by the same Gallina code at binary64; whole-loop models of PANOC/ZeroFPR/PANTR/FISTA by whole-run correspondence; whole-solver runs check statuses, counts and eps recomputed from the final iterate.",
     design="4/C06",
     note=TB_REALS + "stdlib FloatAxioms (leb_spec, eqb_spec, ltb_spec, abs_spec, Prim2SF...) for the binary64 theorem; translator translate/gen_stopchain.py (restricted grammar; out-of-grammar is reported); "
          "criteria: hand model tied by correspondence; clocks are inputs; solver loops abstracted to the chain-evaluate/return/k++ skeleton (validated on runs).",
@@ -36,11 +37,12 @@ CORR = "hand-written Gallina model tied to the code by a correspondence check (t
 
 CHECKS = {
  "C01": C("proof",
-    "Chain of theorems over R: ALM Converged <=> last inner solve Converged with eps <= tolerance and ||e||inf <= dual tolerance (model of alm.tpp, all inner-outcome scripts); inner Converged <=> eps <= tol (generated chain); "
+    "END-TO-END theorem C01_alm_panoc_converged_is_kkt over R for the composed executable model ALM (Alm.v) o PANOC (Panoc.v) on a problem given by f, grad f, g, grad g*y through the vtable model (AugLag.v): for every problem, provider mix (C04 obligations), direction / stop / clock oracle and parameter set, a Converged run returns x in C with "
+    "-(grad f + grad g y) within `tolerance` of N_C(x) componentwise, dist(g(x), D) <= dual_tolerance and complementary multipliers; the composed model is tied to the real ALMSolver<PANOCSolver> by whole-run correspondence (every callback of every inner solve). Plus the chain of links: ALM Converged <=> last inner solve Converged with eps <= tolerance and ||e||inf <= dual tolerance (model of alm.tpp, all inner-outcome scripts); inner Converged <=> eps <= tol (generated chain); "
     "ApproxKKT residual <= tol => -grad psi(x_hat) within tol of the normal cone of C at x_hat componentwise (any box, any step size); g(x_hat) - e in D so dist(g, D) <= |e|; positive (negative) multiplier only where g - ub = e (g - lb = e); the library's KKT-error stationarity is a lower bound of that distance. "
     "Oracle: for every ALM run returning Converged over all 10 shipped stacks the three KKT quantities are recomputed from f, grad f, g, grad g*y and the boxes only and compared with the tolerances and with compute_kkt_error; prox-step kernel correspondence on the run records.",
-    "4/C01", TB_REALS + CORR + "the per-solver loop invariants (x_hat, p, y_hat, grad psi(x_hat) consistent at the stop check) are not proved for whole loops: tied per run by the C03/C05/C06 correspondences and by the oracle; l1 off.",
-    "Coq proof chain (ALM model, generated chain, normal-cone lemmas) + KKT recomputation oracle on real ALM runs"),
+    "4/C01", TB_REALS + CORR + "the end-to-end theorem is for PANOC as inner solver (ZeroFPR / PANTR / FISTA have whole-loop exit contracts, Properties_ZEROFPR/PANTR/FISTA.v, but are not composed with ALM in Coq); l1 off; for m = 0 the theorem needs tolerance > 0 (the code replaces a non-positive inner tolerance by 1e-8).",
+    "Coq end-to-end proof on the composed ALM o PANOC model (whole-run correspondence with the real stack) + proof chain (ALM model, generated chain, normal-cone lemmas) + KKT recomputation oracle on real ALM runs"),
  "C02": C("proof",
     "PARTIAL. Proved for all strongly convex QPs, boxes and dimensions: an approximate KKT pair with tolerances (eps, delta) - what Converged certifies (C01) - satisfies mu|x-x*|^2 <= eps|x-x*|_1 + delta|y-y*|_1 against the exact KKT pair (monotonicity of box normal cones, Hoelder). "
     "LIVENESS proved for the whole-loop models of PANOC and ZeroFPR (Panoc.v / ZeroFpr.v, tied to the code by whole-run correspondence) over R, for EVERY direction provider: if psi has a global quadratic upper bound (Lf <= L_max), is bounded below on C, the oracles are coherent, tolerance factors are 0 and nobody calls stop(), the run returns Converged within an explicit N iterations "
@@ -60,9 +62,10 @@ CHECKS = {
     "Coq proofs for all provider masks + differential correspondence + closed-form / finite-difference oracle"),
  "C05": C("proof",
     "Theorems over R for arbitrary psi, grad psi and direction vectors: leaving the line search with tau>0 IS the sufficient decrease with the strictness factor; QUB at the reported iterate gives envelope descent by (1-gamma L)/(2 gamma)|p|^2 for ANY new step size (vector level, any box); trust-region acceptance gives non-increase; any number of backtracking steps keeps gamma L and never increases gamma. "
+    "The decision kernels of EACH solver file (fbe, qub_violated, linesearch_violated, step-size halving, tau update, PANTR ratio/radius) are TRANSLATED from the source on every run (KernelsGen.v), proved equal to the hand kernels (KernelsGenEq.v) and run at binary64 against the implementation; whole-loop models of PANOC/ZeroFPR/PANTR (descent between consecutive records proved for every oracle) tied by whole-run correspondence. "
     "Correspondence (fbe, prox step, line-search and QUB decisions, halving, candidate point) on callback records of PANOC/ZeroFPR/PANTR runs incl. a scripted direction provider forcing every branch; oracle: the inequalities on consecutive records.",
     "4/C05", TB_REALS + CORR + "inequalities on doubles checked with 256 eps slack; stated for recompute_last_prox_step_after_stepsize_change=false (the option rewrites the reported iterate); force_linesearch skips the test by construction.",
-    "Coq proofs over R of the decision kernels + teacher-forced correspondence on progress records + inequality oracle"),
+    "Translator-generated decision kernels + Coq proofs over R (kernels and whole-loop models) + whole-run and teacher-forced correspondence + inequality oracle"),
  "C06": CHECKS_C06,
  "C07": C("proof",
     "18 theorems over R by induction over ARBITRARY scripts of inner-solver outcomes on a model of the whole ALM operator() (Alm.v): penalties positive, monotone, capped, grow only where the violation persists; multipliers passed in bounded and signed; tolerance non-increasing and >= final; <= max_iter outer iterations; Converged iff; Interrupted immediate; status selection; Sigma_out = last used; statistics are sums. "
@@ -96,9 +99,9 @@ CHECKS = {
     "Coq proofs (layout, index sets, adjoint, Riccati KKT) + correspondence + independent numeric oracle"),
  "C13": C("proof",
     "14 theorems: on the status chain GENERATED from PANOC-OCP's private copy Converged <=> eps <= tolerance (and the copy equals the shared chain); the returned input sequence is u_hat = u + p with p the projected-gradient step, hence inside the input box componentwise; the criterion switch evaluates exactly the six supported criteria and each equals its documented formula at (u_k, u_hat_k, gamma_k); Converged certifies that residual <= tolerance; the gradient fed to it is the derivative of the forward cost (C12's adjoint theorem); multiplier / constraint-error relations per row as for the general solvers. "
-    "Correspondence: teacher-forced on every progress record of the real PANOCOCPSolver (prox step, envelope, QUB, line search, criterion incl. the throwing case, status, free-index count, write_solution); oracle: residual recomputed from an independent roll-out with complex-step gradient, box membership, u = u_hat, multiplier relations, status / count clauses, GN always / periodically / never.",
+    "Whole-loop model of PANOCOCPSolver::operator() (PanocOcpLoop.v, Properties_PANOCOCP.v: 20 theorems for every oracle incl. converged_certifies; whole-run correspondence through drv_ocp, Gauss-Newton block teacher-forced). Correspondence: teacher-forced on every progress record of the real PANOCOCPSolver (prox step, envelope, QUB, line search, criterion incl. the throwing case, status, free-index count, write_solution); oracle: residual recomputed from an independent roll-out with complex-step gradient, box membership, u = u_hat, multiplier relations, status / count clauses, GN always / periodically / never.",
     "4/C13", TB_REALS + CORR + "GN and L-BFGS directions are oracles (nothing about them is needed for what Converged certifies); fmax/fmin modelled by cmax/cmin (equal without NaN); chain rule assumed; interpretation: the criteria are defined on the pair (u_k, u_hat_k), the returned point is u_hat_k (measured: residual at u_hat_k never exceeded tol).",
-    "Coq proofs on generated chain + OCP kernels + record-level correspondence + independent roll-out oracle"),
+    "Coq proofs on generated chain + OCP kernels + whole-loop PANOC-OCP model (whole-run correspondence) + record-level correspondence + independent roll-out oracle"),
  "C14": C("proof",
     "13 axiom-free theorems over a transcription of all 9 SparsityConverter specialisations: a successful conversion preserves the dense matrix entry by entry for all shapes (incl. 0xN), patterns and value vectors; dims, symmetry mirroring, first_index and order requests honoured, order tag truthful, invalid inputs rejected. Correspondence over all pairs x index types x requests; oracle: dense reconstruction.",
     "4/C14", "Coq 8.16.1 kernel, no axioms (closed under the global context); " + CORR + "index widths are tags (overflow not modelled); COO->CSC and CSC sorting throw in this build (macro off) and are modelled as such; duplicates excluded.",
